@@ -20,6 +20,10 @@ pub struct Case {
     pub crlf: bool,
     pub comments: bool,
     pub as_path: bool,
+    /// "" | indented (the module indented as a whole) | indented-end (only END indented) | long-comment (a block
+    /// comment of 8 full lines before the corrupted unit, END indented)
+    #[serde(default)]
+    pub layout: String,
 }
 
 const ASSIGNMENTS: [&str; 14] = [
@@ -73,13 +77,27 @@ pub fn build(c: &Case) -> Option<Built> {
             text += "   comment */";
             text += nl;
         }
+        let indent = c.layout == "indented" || (src == "END" && !c.layout.is_empty());
+        if c.layout == "long-comment" && u == c.unit {
+            text += "/* about the next definition";
+            text += nl;
+            for k in 0..8 {
+                text += &format!("   line {k} of a description that is long enough to fill its line  ");
+                text += nl;
+            }
+            text += "*/";
+            text += nl;
+        }
+        if indent {
+            text += "  ";
+        }
         let toks = tokenize(src)?;
         // keep the unit's own line structure: re-emit tokens with the original inter-token layout
         let mut pieces: Vec<(String, String)> = vec![]; // (leading layout, token)
         let mut prev_end = 0usize;
         for t in &toks {
             let lead = &src[prev_end..t.start];
-            pieces.push((lead.replace('\n', nl), t.text.clone()));
+            pieces.push((lead.replace('\n', &if indent { format!("{nl}  ") } else { nl.to_string() }), t.text.clone()));
             prev_end = t.start + t.text.len();
         }
         if u == c.unit {
@@ -143,6 +161,19 @@ fn parse_display_line(d: &str, path: Option<&str>) -> Option<usize> {
         d[i + 5..].split(',').next()?.trim().parse().ok()
     }
 }
+/// text of the line that carries the mark (between the frame and the mark)
+fn parse_marked_text(ctx: &str) -> Option<String> {
+    for l in ctx.lines() {
+        if let Some(i) = l.find("FAILED AT THIS LINE") {
+            let body = &l[..i];
+            // the mark itself: ` ◀▪▪▪▪▪▪▪▪▪▪ FAILED AT THIS LINE`
+            let body = body.trim_end_matches(' ').trim_end_matches('\u{25aa}').trim_end_matches('\u{25c0}');
+            let start = body.find('\u{2502}').map(|k| k + '\u{2502}'.len_utf8())?;
+            return Some(body[start..].trim().to_string());
+        }
+    }
+    None
+}
 fn parse_marked_line(ctx: &str) -> Option<usize> {
     for l in ctx.lines() {
         if l.contains("FAILED AT THIS LINE") {
@@ -158,7 +189,7 @@ impl Prop for C17 {
         "C17"
     }
     fn rule(&self) -> String {
-        "bases: module sets of 1..3 modules × 1..6 assignments (thorough: up to 14) drawn from 14 assignment forms (single- and multi-line) under 3 header forms, in LF and CRLF, with and without interleaved line/block comments; every unit (header or assignment) × every token position × {delete, replace by / insert `§` (starts no ASN.1 token), replace by / insert each of ::= { } ( , INTEGER x 1}; each corrupted text given as a literal (all) and as a file path (the `§` edits, in every line-ending / comment layout). Only runs returning Err(Lexer(MatchingError)) are judged. Oracle: 0<=offset<=len on a char boundary; line = 1 + #LF before offset; offset >= first token of the corrupted unit (of the preceding unit when its first token is hit); for `§` edits offset <= position of `§`; Display line = contextualize-marked line = ReportData.line; src_file and the Display path present iff the source was a path. Non-trivial: a MatchingError was returned and judged.".into()
+        "bases: module sets of 1..3 modules × 1..6 assignments (thorough: up to 14) drawn from 14 assignment forms (single- and multi-line) under 3 header forms, in LF and CRLF, with and without interleaved line/block comments, flush left / indented as a whole / with only END indented / with an 8-line block comment before the corrupted unit; every unit (header or assignment) × every token position × {delete, replace by / insert `§` or a no-break space (start no ASN.1 token; the second is white-space to Rust but not to ASN.1), replace by / insert each of ::= { } ( , INTEGER x 1}; each corrupted text given as a literal (all) and as a file path (the `§` edits, in every line-ending / comment layout). Only runs returning Err(Lexer(MatchingError)) are judged. Oracle: 0<=offset<=len on a char boundary; line = 1 + #LF before offset; offset >= first token of the corrupted unit (of the preceding unit when its first token is hit); for `§` edits offset <= position of `§`; Display line = contextualize-marked line = ReportData.line, and the marked text is that line of the input; src_file and the Display path present iff the source was a path. Non-trivial: a MatchingError was returned and judged.".into()
     }
     fn enumerate(&self, tier: Tier, _seed: u64) -> Vec<Case> {
         // base unit lists
@@ -183,7 +214,7 @@ impl Prop for C17 {
         for a in ASSIGNMENTS {
             bases.push(vec![header("M", 0), a.to_string(), "END".into()]);
         }
-        let withs = ["§", "::=", "{", "}", "(", ",", "INTEGER", "x", "1"];
+        let withs = ["§", "\u{a0}", "::=", "{", "}", "(", ",", "INTEGER", "x", "1"];
         let mut out = vec![];
         for (bi, units) in bases.iter().enumerate() {
             for (u, src) in units.iter().enumerate() {
@@ -191,17 +222,20 @@ impl Prop for C17 {
                     continue;
                 }
                 let ntok = tokenize(src).map(|t| t.len()).unwrap_or(0);
-                for (crlf, comments) in [(false, false), (true, true), (false, true), (true, false)] {
+                for (crlf, comments, layout) in [(false, false, ""), (true, true, ""), (false, true, ""), (true, false, ""), (false, false, "indented"), (false, false, "indented-end"), (false, false, "long-comment"), (true, true, "indented"), (false, true, "indented-end")] {
                     if !tier.thorough() && bi % 2 == 1 && (crlf != comments) {
                         continue;
                     }
+                    if !tier.thorough() && !layout.is_empty() && bi % 3 != 0 {
+                        continue;
+                    }
                     for t in 0..ntok {
-                        out.push(Case { units: units.clone(), unit: u, tok: t, edit: "delete".into(), with: String::new(), crlf, comments, as_path: false });
+                        out.push(Case { units: units.clone(), unit: u, tok: t, edit: "delete".into(), with: String::new(), crlf, comments, as_path: false, layout: layout.into() });
                         for w in withs {
                             for e in ["replace", "insert"] {
-                                out.push(Case { units: units.clone(), unit: u, tok: t, edit: e.into(), with: w.into(), crlf, comments, as_path: false });
-                                if w == "§" {
-                                    out.push(Case { units: units.clone(), unit: u, tok: t, edit: e.into(), with: w.into(), crlf, comments, as_path: true });
+                                out.push(Case { units: units.clone(), unit: u, tok: t, edit: e.into(), with: w.into(), crlf, comments, as_path: false, layout: layout.into() });
+                                if w == "§" || w == "\u{a0}" {
+                                    out.push(Case { units: units.clone(), unit: u, tok: t, edit: e.into(), with: w.into(), crlf, comments, as_path: true, layout: layout.into() });
                                 }
                             }
                         }
@@ -248,7 +282,7 @@ impl Prop for C17 {
         let toks = tokenize(&c.units[c.unit]).unwrap_or_default();
         let tclass = toks.get(c.tok).map(class_of).unwrap_or("end".into());
         let pos = if c.tok == 0 { "first" } else if c.tok + 1 >= toks.len() { "last" } else { "mid" };
-        let kb = format!("errpos|edit={}:{}|tok={}|pos={pos}|crlf={}|comments={}", c.edit, if c.with == "§" { "§" } else if c.with.is_empty() { "-" } else { "token" }, if tclass.len() > 12 { "word".to_string() } else { tclass }, c.crlf, c.comments);
+        let kb = format!("errpos|edit={}:{}|tok={}|pos={pos}|crlf={}|comments={}", c.edit, if c.with == "§" { "§" } else if c.with == "\u{a0}" { "nbsp" } else if c.with.is_empty() { "-" } else { "token" }, if tclass.len() > 12 { "word".to_string() } else { tclass }, c.crlf, c.comments);
         let mut discs = vec![];
         let detail = |what: &str| format!("{what}\nreport: {rep:?}\ndisplay: {}\n--- input ---\n{text}", e.display);
         if rep.offset > text.len() || !text.is_char_boundary(rep.offset) {
@@ -266,7 +300,7 @@ impl Prop for C17 {
             discs.push(Disc::new(format!("{kb}|kind=before"), detail(&format!("offset {} lies before the first token (offset {lb}) of the malformed unit", rep.offset))));
         }
         // upper bound for characters that cannot continue any notation
-        if c.with == "§" {
+        if c.with == "§" || c.with == "\u{a0}" {
             if let Some(p) = b.edit_pos {
                 if rep.offset > p {
                     discs.push(Disc::new(format!("{kb}|kind=after"), detail(&format!("offset {} lies after the `§` at {p}", rep.offset))));
@@ -281,6 +315,15 @@ impl Prop for C17 {
         }
         if ml != Some(rep.line) {
             discs.push(Disc::new(format!("errpos|render-mismatch|contextualize|crlf={}|comments={}|path={}|got={}", c.crlf, c.comments, c.as_path, if ml.is_none() { "no-marked-line" } else { "other-line" }), detail(&format!("contextualize marks line {ml:?}, report line {}\n{}", rep.line, e.contextualized[0]))));
+        }
+        // the marked line is the reported line of the input, not merely a line labelled with its number
+        if ml == Some(rep.line) {
+            let want = text.lines().nth(rep.line - 1).unwrap_or("").trim().to_string();
+            let got = parse_marked_text(&e.contextualized[0]).unwrap_or_default();
+            // (the excerpt may begin inside the line: the tail of the reported line is still that line)
+            if got.is_empty() != want.is_empty() || !want.ends_with(&got) {
+                discs.push(Disc::new(format!("errpos|render-mismatch|contextualize|crlf={}|comments={}|path={}|got=other-text", c.crlf, c.comments, c.as_path), detail(&format!("contextualize marks `{got}` as line {}, which reads `{want}`\n{}", rep.line, e.contextualized[0]))));
+            }
         }
         // path reporting
         match (&path, &rep.src_file) {
